@@ -34,7 +34,8 @@ MIN_COUNTERS = dict(quick={'moments_asserted': 10000, 'end_to_end_asserted': 300
 EXHAUSTIVE = dict(quick=True, thorough=False)
 EXHAUSTIVE_NOTE = ('grid {central, forward, backward, complex} x n 1..10 x order 1..10 x ratio in '
                    '{1.2,1.3,1.6,2,2.5,3,4,7.3,10} enumerated completely in both tiers; thorough adds random real ratios')
-RULE = ('complete grid of 3600 rules (see exhaustive_part), first with the rule cache exactly as a fresh interpreter provides it, then a third of the grid again after emptying the cache; per rule all monomials t^d/d!, d = 0..n+order+4*spacing. '
+RULE = ('The Richardson pairing is asserted on a fresh object, on an object that reached the configuration through setters, and for every shorter rule rule(L), L <= terms + 1. ' 
+        'complete grid of 3600 rules (see exhaustive_part), first with the rule cache exactly as a fresh interpreter provides it, then a third of the grid again after emptying the cache; per rule all monomials t^d/d!, d = 0..n+order+4*spacing. '
         'distinct non-trivial = (method, parity class, n, order, ratio) with >= 2 weights and a numerically '
         'non-singular moment matrix')
 ASSUMPTIONS = ['kappa_d table derived from the definition of each difference quotient (forward, backward, central odd/even, '
